@@ -98,8 +98,8 @@ def items(tier):
     rnd = random.Random(7)
     for k in range(0, kmax + 1):
         combos = list(itertools.product(range(len(sel)), repeat=k))
-        if len(combos) > (60 if quick else 400):
-            combos = rnd.sample(combos, 60 if quick else 400)
+        if len(combos) > (30 if quick else 400):
+            combos = rnd.sample(combos, 30 if quick else 400)
         for combo in combos:
             qs = rnd.sample(range(len(shapes)), 2)
             for qi in qs:
